@@ -197,8 +197,39 @@ VLitRange(r) ==
     IN  IF bad # {} THEN Rej("C09 code point range decoded wrongly", <<r.form, r.quote, r.res, CHOOSE x \in bad : TRUE>>)
         ELSE Acc
 
+(* ---- all entry points agree (C15) ---------------------------------------------- *)
+\* r.results: one entry per public call path: [path, kind: "list"|"first", out, cls, jp, locs, none]
+VEntry(r) ==
+    LET reg == RegOf(r)
+        cv  == CompileVerdict(r.q, reg, LoOf(r), HiOf(r))
+        res == r.results
+        N   == Len(res)
+        \* find_one is lazy: on an evaluation-time error it may already have its first item,
+        \* so agreement is demanded within the list-valued paths and within the find_one paths
+        sameOutcome == \A j, k \in 1..N :
+                           (res[j].kind = res[k].kind \/ cv.v # "accept")
+                           => (res[j].out = res[k].out /\ res[j].cls = res[k].cls /\ res[j].locs = res[k].locs)
+    IN  IF ~sameOutcome THEN Rej("C15 entry points disagree on the outcome", <<ToJson([k \in 1..N |-> <<res[k].path, res[k].out, res[k].cls>>])>>)
+        ELSE IF cv.v = "reject" THEN
+            IF res[1].out = "raise" /\ res[1].jp THEN Acc
+            ELSE Rej("C15 invalid query not rejected by every entry point", <<>>)
+        ELSE IF cv.v = "either" THEN Acc
+        ELSE LET segs == Parse(r.q, FALSE).v
+             IN  IF DcSegs(segs, r.doc, reg) THEN Acc
+                 ELSE IF Has(r, "maxdepth") /\ Nesting(r.doc) > r.maxdepth THEN Acc      \* C18 decides the outcome
+                 ELSE IF res[1].out # "ok" THEN Rej("C15 valid query raised", <<res[1].cls>>)
+                 ELSE LET nl    == Find(segs, r.doc, reg)
+                          locs  == [k \in 1..Len(nl) |-> nl[k].loc]
+                          first == IF nl = <<>> THEN <<>> ELSE <<nl[1].loc>>
+                          bad   == {k \in 1..N : IF res[k].kind = "list" THEN res[k].locs # locs
+                                                 ELSE res[k].locs # first \/ res[k].none # (nl = <<>>)}
+                      IN  IF bad # {} THEN Rej("C15 an entry point returned a different result",
+                                              <<ToJson([k \in bad |-> res[k].path])>>)
+                          ELSE Acc
+
 Verdict(r) ==
     CASE r.op = "compile" -> VCompile(r)
+      [] r.op = "entry"   -> VEntry(r)
       [] r.op = "lit"      -> VLit(r)
       [] r.op = "litrange" -> VLitRange(r)
       [] r.op = "requery" -> VRequery(r)
